@@ -1,2 +1,36 @@
 #![allow(warnings, clippy::all, clippy::pedantic, clippy::nursery)]
+//@ module: backend::node
 use super::*;
+use std::os::unix::ffi::OsStrExt;
+
+fn roundtrip<const N: usize>() {
+    let raw: [u8; N] = kani::any();
+    let name = OsStr::from_bytes(&raw);
+    let escaped = escape_filename(name);
+    let back = unescape_filename(&escaped);
+    match back {
+        Ok(b) => {
+            let bb = b.as_bytes();
+            assert!(bb.len() == N);
+            let mut i = 0;
+            while i < N { assert!(bb[i] == raw[i]); i += 1; }
+            kani::cover!(true, "round trip");
+            std::mem::forget(b);
+        }
+        Err(e) => { std::mem::forget(e); assert!(false, "escaped name does not unescape"); }
+    }
+    std::mem::forget(escaped);
+}
+
+//@ harness: c01_filename_escape_roundtrip_1
+//@ prop: C01
+//@ tier: experimental
+//@ timeout: 1500
+//@ mem: 16
+//@ kernel: backend::node::{escape_filename, unescape_filename} (unix)
+//@ bound: every 1-byte file name (all 256 byte values: control characters, backslash, quote, invalid UTF-8)
+//@ oracle: unescape_filename(escape_filename(name)) == name
+#[kani::proof]
+#[kani::unwind(12)]
+#[kani::stub(std::backtrace::Backtrace::capture, crate::error::verif_harness::stub_backtrace_capture)]
+pub(crate) fn c01_filename_escape_roundtrip_1() { roundtrip::<1>(); }
